@@ -1,18 +1,41 @@
-import FstVerif.Model.Lev
+import FstVerif.Proofs.Lev
 /-
-C17 — Levenshtein (partial at byte level, see DESIGN.md). (`C17_dp` for all
-query/distance/key is in Proofs/Lev.lean; here: UTF-8 encoder facts used by
-the DFA construction and the shape of the start row.)
+C17 — Levenshtein. Character level (all queries, distances, keys): statements
+here, proofs in Proofs/Lev.lean against the independent definition
+`Spec.lev` (Spec/Lev.lean: structural recursion, tied to edit scripts by
+`Spec.lev_eq_iff`). Byte level: PARTIAL — the model of the DFA construction
+(Model/Lev.lean) is compared state-for-state with the real DFA for the
+enumerated (query, distance) pairs by ./check; a proof that the construction
+yields the UTF-8 lifting of the DP automaton for every query is not done.
 -/
-namespace Fst
+namespace Fst.Props
+open Fst
 
-theorem C17_start_row (q : List Nat) (d : Nat) : (DynLev.mk q d).start = List.range (q.length + 1) := rfl
+/-- the DP row automaton matches exactly the keys within the edit distance
+(scalar values; every query, every distance, every key) -/
+theorem C17_dp (l : DynLev) (k : List Nat) :
+    l.isMatch (k.foldl (fun st c => l.accept st (some c)) l.start) = true ↔
+      Spec.lev l.query k ≤ l.dist := Fst.C17_dp l k
 
-/-- the empty query matches exactly when the start row's last entry (0) is within the distance -/
-theorem C17_empty_query (d : Nat) : (DynLev.mk [] d).isMatch (DynLev.mk [] d).start = true := by
-  simp [DynLev.isMatch, DynLev.start, List.range, List.range.loop]
+/-- `can_match` is sound: once false, no continuation (through query characters or
+the "any other character" step `none`) matches -/
+theorem C17_can_match_sound (l : DynLev) (st : List Nat) (h : l.canMatch st = false)
+    (w : List (Option Nat)) : l.isMatch (w.foldl (fun st c => l.accept st c) st) = false :=
+  Fst.C17_dp_can_opt l st h w
 
-/-- encoded length by code-point range -/
+/-- the construction's "mismatch" step stands for every character not in the query -/
+theorem C17_mismatch_char (l : DynLev) (st : List Nat) (c : Nat) (hc : c ∉ l.query) :
+    l.accept st none = l.accept st (some c) := Fst.accept_none_eq l st c hc
+
+/-- the specification is the minimum length of an edit script (insertions, deletions, substitutions) -/
+theorem C17_spec_is_edit_distance (q k : List Nat) (n : Nat) :
+    Spec.lev q k = n ↔ Spec.Edit q k n ∧ ∀ m, Spec.Edit q k m → n ≤ m := Spec.lev_eq_iff q k n
+
+/-- a construction that would exceed the state limit does not return an automaton -/
+theorem C17_limit (query : List Nat) (dist : Nat) (full : List (List (Nat × Nat))) (limit fuel : Nat)
+    (states : Array DState) (h : levNew query dist full limit fuel = some (.ok states)) :
+    states.size ≤ limit := Fst.C17_limit query dist full limit fuel states h
+
 theorem C17_utf8_len (c : Nat) :
     (utf8Enc c).length = if c < 0x80 then 1 else if c < 0x800 then 2 else if c < 0x10000 then 3 else 4 := by
   unfold utf8Enc
@@ -23,7 +46,7 @@ theorem C17_utf8_len (c : Nat) :
     · split <;> rfl
 
 example : utf8Enc 0xE9 = [0xC3, 0xA9] := by decide
-example : utf8Enc 0x2603 = [0xE2, 0x98, 0x83] := by decide
 example : utf8Enc 0x1F600 = [0xF0, 0x9F, 0x98, 0x80] := by decide
+example : Spec.lev [233] [234] = 1 := by decide
 
-end Fst
+end Fst.Props
